@@ -130,6 +130,21 @@ def build_cases(ctx, n_stmts, muts):
             fancy = rng.random() < 0.7
             cases.append((relayout(m, rng, fancy), kind + ('+layout' if fancy else '')))
         cases.append((relayout(s, rng, True) + rng.choice([' ☃', ' \\', ' #', '\n ~~ §']), 'illegal-char'))
+    # illegal characters after line ends other than LF and after characters that str.splitlines() (but not the lexer)
+    # treats as line ends: CRLF texts, form feed / U+2028 / NEL / vertical tab inside string literals
+    for s in pick[:max(20, n_stmts // 8)]:
+        spans = lex_spans(D, s)
+        if not spans or len(spans) < 3:
+            continue
+        toks = [s[a:b] for _, a, b in spans]
+        crlf = toks[0]
+        for i, t in enumerate(toks[1:]):
+            crlf += ('\r\n  ' if i % 2 == 0 else ' ') + t
+        for bad in (' #', '\r\n ^ x', '\r\n\r\n   §'):
+            cases.append((crlf + bad, 'illegal-char-crlf'))
+        for ch in ('\x0c', '\u2028', '\x85', '\x0b', '\u2029', '\x1c'):
+            cases.append(("select 'a%sb' as c1,\n  'x' as c2\nfrom t %s where y = ^ 1" % (ch, "/* %s */" % ch), 'illegal-char-after-unicode-linebreak'))
+            cases.append(("select 'a%sb' as c1 ^" % ch, 'illegal-char-after-unicode-linebreak'))
     return cases
 
 
